@@ -3,6 +3,7 @@ from sa.selftest.harness import M, T
 H = "sharepoint2text/parsing/extractors/html_extractor.py"
 EP = "sharepoint2text/parsing/extractors/epub_extractor.py"
 MH = "sharepoint2text/parsing/extractors/mhtml_extractor.py"
+MS = "sharepoint2text/parsing/extractors/mail/msg_email_extractor.py"
 
 HT = "sharepoint2text/parsing/extractors/html_extractor.py"
 MUTANTS = [
@@ -17,9 +18,12 @@ MUTANTS = [
     M("mhtml-comments-stripped-by-regex", MH, "        html_buffer = io.BytesIO(html_content)", "        html_content = re.sub(rb\"<!--.*?-->\", b\"\", html_content, flags=re.DOTALL)\n        html_buffer = io.BytesIO(html_content)", "C17-N5"),
     M("parser-close-called", HT, "            rest = parser.rawdata\n", "            parser.close()\n            rest = parser.rawdata\n", "C17-EOF"),
     M("flush-unguarded", HT, "            if rest and \"<\" not in rest:\n", "            if rest:\n", "C17-EOF"),
+    M("msg-html-hint-doubled-backslash", MS, "script)(\\s|/|>)\",", "script)(\\\\s|>)\",", "C17-N5"),
+    M("msg-html-hint-no-self-closing", MS, "script)(\\s|/|>)\",", "script)(\\s|>)\",", "C17-N5"),
 ]
 
 TWINS = [
+    T("msg-html-hint-as-class", MS, "script)(\\s|/|>)\",", "script)[\\s/>]\","),
     T("html-skip-test-reordered", H, "        if self.skip_depth > 0:\n            if tag == self._skip_tag:\n                self.skip_depth += 1\n            return\n\n        if tag in REMOVE_TAGS:", "        if self.skip_depth > 0:\n            if self._skip_tag == tag:\n                self.skip_depth = self.skip_depth + 1\n            return\n\n        if tag in REMOVE_TAGS:"),
     T("html-comment-handler-documented", H, "    def handle_comment(self, data: str):\n        # Ignore comments\n        pass", "    def handle_comment(self, data: str):\n        \"\"\"Comments never reach the tree.\"\"\"\n        return None"),
     T("flush-guard-nested", HT, "            if rest and \"<\" not in rest:\n                parser.handle_data(unescape(rest))\n", "            if rest:\n                if \"<\" not in rest:\n                    parser.handle_data(unescape(rest))\n"),
